@@ -732,4 +732,251 @@ theorem kernel_quantize_int_dec (prof : Profile) (tm : Mode) (i : Int) (q : Dec)
 theorem kernel_quantize_int_int (prof : Profile) (tm : Mode) (i j : Int) (hi : fitsI128 i = true) :
     Gen.K.quantize_int_int prof tm i j = quantizeIntInt prof tm i j := Kernels.quantize_int_int_eq prof tm i j hi
 
+/-! ### algebraic laws: `div_rounded` by one, `quantize` -/
+
+/-- every representation of one is a Decimal of the domain -/
+theorem dom_of_one (y : Dec) (hq : y.nfrac ≤ 18) (hy : y.coeff = (10 : Int) ^ y.nfrac) : Dom y := by
+  have h1 := pow10_pos y.nfrac
+  have h2 := C02.pow10_le_max' (k := y.nfrac) (by omega)
+  refine ⟨?_, ?_, hq⟩ <;> rw [hy] <;> unfold I128_MIN at * <;> omega
+
+/-- the expectation for `x.div_rounded(one, n)` with `n ≥ p`: `x` re-expressed with `n` fractional digits -/
+private theorem spec_div_rounded_one (tm : Mode) (a : Int) (p : Nat) (b : Int) (q n : Nat) (hb : b = (10 : Int) ^ q)
+    (ha0 : a ≠ 0) (hn : p ≤ n) (hn18 : n ≤ 18) :
+    Spec.divRounded tm a p b q n = Spec.valFit (a * (10 : Int) ^ (n - p)) n := by
+  have hb0 : b ≠ 0 := by rw [hb]; exact Int.ne_of_gt (pow10_pos q)
+  have hd : b * (10 : Int) ^ p ≠ 0 := Int.mul_ne_zero hb0 (Int.ne_of_gt (pow10_pos p))
+  have e : a * (10 : Int) ^ (n + q) = a * (10 : Int) ^ (n - p) * (b * (10 : Int) ^ p) := by
+    have : n + q = (n - p) + (q + p) := by omega
+    rw [hb, this, Int.pow_add, Int.pow_add]; ring
+  unfold Spec.divRounded
+  simp only [show ¬ n > 18 by omega, hb0, ha0, if_false]
+  rw [e, specRoundQ_exact_mul tm _ _ hd]
+
+/-- `x.div_rounded(1, n)` with `n ≥ p` (every representation of one as divisor, every mode and profile): `x` re-expressed with
+    `n` fractional digits — the same value — whenever that coefficient fits an i128 … -/
+theorem div_rounded_one (hw : WideDiv) (prof : Profile) (tm : Mode) (x y : Dec) (n : Nat) (hx : Dom x) (hq : y.nfrac ≤ 18)
+    (hy : y.coeff = (10 : Int) ^ y.nfrac) (h0 : x.coeff ≠ 0) (hn : x.nfrac ≤ n) (hn18 : n ≤ 18)
+    (hf : fitsI128 (x.coeff * (10 : Int) ^ (n - x.nfrac)) = true) :
+    divRounded prof tm x y n = .ok ⟨x.coeff * (10 : Int) ^ (n - x.nfrac), n⟩ := by
+  have hs := div_rounded_spec hw prof tm x y n hx (dom_of_one y hq hy)
+  rw [spec_div_rounded_one tm _ _ _ _ n hy h0 hn hn18] at hs
+  have hm : x.coeff * (10 : Int) ^ (n - x.nfrac) ≠ I128_MIN := by
+    by_cases hnp : n - x.nfrac = 0
+    · rw [hnp, Int.pow_zero, Int.mul_one]; exact Int.ne_of_gt hx.1
+    · exact mul_pow10_ne_min _ _ (by omega)
+  rw [valFit_of_fits n hm hf] at hs
+  exact ok_of_allowed_val hs
+
+/-- … and an overflow signal (never a wrong value) when it does not -/
+theorem div_rounded_one_overflow (hw : WideDiv) (prof : Profile) (tm : Mode) (x y : Dec) (n : Nat) (hx : Dom x) (hq : y.nfrac ≤ 18)
+    (hy : y.coeff = (10 : Int) ^ y.nfrac) (h0 : x.coeff ≠ 0) (hn : x.nfrac ≤ n) (hn18 : n ≤ 18)
+    (hf : fitsI128 (x.coeff * (10 : Int) ^ (n - x.nfrac)) = false) :
+    ∃ k, divRounded prof tm x y n = .panic k ∧ Spec.isOvfPanic k = true := by
+  have hs := div_rounded_spec hw prof tm x y n hx (dom_of_one y hq hy)
+  rw [spec_div_rounded_one tm _ _ _ _ n hy h0 hn hn18, valFit_of_unfit n hf] at hs
+  cases hr : divRounded prof tm x y n with
+  | ok d => rw [hr] at hs; simp [Spec.allowedOp] at hs
+  | panic k => rw [hr] at hs; exact ⟨k, rfl, by simpa [Spec.allowedOp] using hs⟩
+
+/-- in particular any result of `x.div_rounded(Decimal::ONE, n)`, `n ≥ p`, has the value of `x` (a zero `x` gives `Decimal::ZERO`) -/
+theorem div_rounded_ONE_value (hw : WideDiv) (prof : Profile) (tm : Mode) (x r : Dec) (n : Nat) (hx : Dom x)
+    (hn : x.nfrac ≤ n) (hn18 : n ≤ 18) (h : divRounded prof tm x Dec.ONE n = .ok r) :
+    r.coeff * (10 : Int) ^ x.nfrac = x.coeff * (10 : Int) ^ r.nfrac ∧ (x.coeff ≠ 0 → r.nfrac = n) := by
+  by_cases h0 : x.coeff = 0
+  · have : divRounded prof tm x Dec.ONE n = .ok Dec.ZERO := by
+      unfold divRounded
+      simp [eqZero, h0, max_nfrac, show ¬ n > 18 by omega, Dec.ONE]
+    rw [this] at h
+    cases h
+    simp [Dec.ZERO, h0]
+  · cases hf : fitsI128 (x.coeff * (10 : Int) ^ (n - x.nfrac))
+    · obtain ⟨k, hk, -⟩ := div_rounded_one_overflow hw prof tm x Dec.ONE n hx (by decide) (by decide) h0 hn hn18 hf
+      rw [hk] at h; cases h
+    · rw [div_rounded_one hw prof tm x Dec.ONE n hx (by decide) (by decide) h0 hn hn18 hf] at h
+      cases h
+      refine ⟨?_, fun _ => rfl⟩
+      simp only
+      rw [Int.mul_assoc, ← Int.pow_add]
+      congr 2
+      omega
+
+example : divRounded Profile.dev .heven ⟨-25, 1⟩ Dec.ONE 3 = .ok ⟨-2500, 3⟩ ∧ divRounded Profile.dev .up ⟨-25, 1⟩ ⟨100, 2⟩ 1 = .ok ⟨-25, 1⟩ ∧
+    divRounded Profile.release .floor ⟨0, 5⟩ Dec.ONE 7 = .ok ⟨0, 0⟩ ∧
+    divRounded Profile.release .floor Dec.MAX Dec.ONE 1 = .panic .overflow := by decide
+
+/-- the integer `k` of `x.quantize(q) = k·q`: the exact quotient `x / q` rounded to an integer under the mode -/
+def quantQuot (tm : Mode) (x q : Dec) : Int :=
+  Spec.specRoundQ tm (x.coeff * (10 : Int) ^ q.nfrac) (q.coeff * (10 : Int) ^ x.nfrac)
+
+/-- `quantize` is its two steps -/
+theorem quantize_steps (prof : Profile) (tm : Mode) (x q r : Dec) (h : quantize prof tm x q = .ok r) :
+    ∃ r1, divRounded prof tm x q 0 = .ok r1 ∧ mul prof tm r1 q = .ok r := by
+  unfold quantize at h
+  cases h1 : divRounded prof tm x q 0 with
+  | panic k => rw [h1] at h; cases h
+  | ok r1 => rw [h1] at h; exact ⟨r1, rfl, h⟩
+
+/-- the first step returns the integer `quantQuot` (with no fractional digits); the quantum is not zero -/
+theorem quantize_quot (hwd : WideDiv) (prof : Profile) (tm : Mode) (x q r1 : Dec) (hx : Dom x) (hq : Dom q)
+    (h : divRounded prof tm x q 0 = .ok r1) :
+    q.coeff ≠ 0 ∧ r1 = ⟨quantQuot tm x q, 0⟩ ∧ fitsI128 (quantQuot tm x q) = true := by
+  have hs := div_rounded_spec hwd prof tm x q 0 hx hq
+  rw [h] at hs
+  unfold Spec.divRounded at hs
+  simp only [show ¬ 0 > 18 by omega, if_false, Nat.zero_add, outPair_ok] at hs
+  by_cases hb0 : q.coeff = 0
+  · simp [hb0, Spec.allowedOp] at hs
+  · simp only [hb0, if_false] at hs
+    refine ⟨hb0, ?_⟩
+    have hd : q.coeff * (10 : Int) ^ x.nfrac ≠ 0 := Int.mul_ne_zero hb0 (Int.ne_of_gt (pow10_pos _))
+    by_cases ha0 : x.coeff = 0
+    · have hk : quantQuot tm x q = 0 := by
+        have := specRoundQ_exact_mul tm 0 _ hd
+        unfold quantQuot
+        rw [ha0]
+        simpa using this
+      simp only [ha0, if_true] at hs
+      obtain ⟨c, n⟩ := r1
+      simp [Spec.allowedOp] at hs
+      rw [hk, hs.1, hs.2]
+      exact ⟨rfl, by decide⟩
+    · simp only [ha0, if_false] at hs
+      obtain ⟨c, n⟩ := r1
+      obtain ⟨e1, e2, hf⟩ := of_valFit_ok hs
+      unfold quantQuot
+      simp only at e1 e2
+      exact ⟨by rw [e1, e2], hf⟩
+
+/-- `x.quantize(q)` is an integer multiple of `q`, and which one: as values `r = k·q` with `k = quantQuot` — over the integers,
+    `r.coeff · 10^(q.nfrac) = k · q.coeff · 10^(r.nfrac)` (every mode and profile) -/
+theorem quantize_multiple (hwd : WideDiv) (prof : Profile) (tm : Mode) (x q r : Dec) (hx : Dom x) (hq : Dom q)
+    (h : quantize prof tm x q = .ok r) :
+    r.coeff * (10 : Int) ^ q.nfrac = quantQuot tm x q * q.coeff * (10 : Int) ^ r.nfrac := by
+  obtain ⟨r1, h1, h2⟩ := quantize_steps prof tm x q r h
+  obtain ⟨-, e1, -⟩ := quantize_quot hwd prof tm x q r1 hx hq h1
+  subst e1
+  have := C02.mul_exact_value prof tm ⟨quantQuot tm x q, 0⟩ q r (by simp) hq.2.2 (by have := hq.2.2; simp; omega) h2
+  simpa using this
+
+/-- the rounded quotient of a coefficient of the domain by a positive divisor is not `i128::MIN` -/
+private theorem specRound_gt_min (tm : Mode) (a d : Int) (ha : I128_MIN < a) (hd : 0 < d) : I128_MIN < Spec.specRound tm a d := by
+  have h := (specRound_range tm a d hd).1
+  have : I128_MIN < a / d := by
+    by_cases h0 : 0 ≤ a
+    · have := Int.ediv_nonneg h0 (Int.le_of_lt hd); unfold I128_MIN; omega
+    · have := ediv_ge_of_neg (x := a) (by omega) hd; omega
+  omega
+
+/-- for a quantum `10^j / 10^qn` the quotient is never `i128::MIN` -/
+private theorem quot_ne_min (tm : Mode) (a : Int) (p qn j : Nat) (ha : I128_MIN < a) :
+    Spec.specRoundQ tm (a * (10 : Int) ^ qn) ((10 : Int) ^ j * (10 : Int) ^ p) ≠ I128_MIN := by
+  have hd : (10 : Int) ^ j * (10 : Int) ^ p ≠ 0 := Int.ne_of_gt (Int.mul_pos (pow10_pos _) (pow10_pos _))
+  by_cases hc : j + p ≤ qn
+  · have e : a * (10 : Int) ^ qn = a * (10 : Int) ^ (qn - (j + p)) * ((10 : Int) ^ j * (10 : Int) ^ p) := by
+      have : qn = (qn - (j + p)) + (j + p) := by omega
+      rw [← Int.pow_add, Int.mul_assoc, ← Int.pow_add, ← this]
+    rw [e, specRoundQ_exact_mul tm _ _ hd]
+    by_cases h0 : qn - (j + p) = 0
+    · rw [h0, Int.pow_zero, Int.mul_one]; exact Int.ne_of_gt ha
+    · exact mul_pow10_ne_min _ _ (by omega)
+  · have e : (10 : Int) ^ j * (10 : Int) ^ p = (10 : Int) ^ (j + p - qn) * (10 : Int) ^ qn := by
+      rw [← Int.pow_add, ← Int.pow_add]; congr 1; omega
+    rw [e, specRoundQ_scale tm a _ _ (Int.ne_of_gt (pow10_pos _)) (pow10_pos _), specRoundQ_pos tm a _ (pow10_pos _)]
+    exact Int.ne_of_gt (specRound_gt_min tm a _ ha (pow10_pos _))
+
+/-- dividing an exact multiple `k·q` (any i128 coefficient, `i128::MIN` included) by `q` to zero digits gives `k` back -/
+private theorem divRounded_exact (hw : WideDiv) (prof : Profile) (tm : Mode) (r q : Dec) (k : Int)
+    (hr : I128_MIN ≤ r.coeff ∧ r.coeff ≤ I128_MAX) (hrn : r.nfrac ≤ 18) (hq : Dom q) (hb0 : q.coeff ≠ 0)
+    (hk : I128_MIN < k ∧ k ≤ I128_MAX) (he : r.coeff * (10 : Int) ^ q.nfrac = k * q.coeff * (10 : Int) ^ r.nfrac)
+    (hc : ¬ (r.coeff = I128_MIN ∧ q.coeff = -1 ∧ q.nfrac < r.nfrac)) :
+    divRounded prof tm r q 0 = .ok ⟨k, 0⟩ := by
+  obtain ⟨c, rn⟩ := r
+  obtain ⟨b, qn⟩ := q
+  simp only at hr hrn hb0 he hc
+  unfold divRounded
+  simp only [max_nfrac, eqZero, show ¬ 0 > 18 by omega, if_false, hb0, decide_false, Bool.false_eq_true]
+  by_cases hc0 : c = 0
+  · have : k = 0 := by
+      rw [hc0, Int.zero_mul] at he
+      have h10 := pow10_pos rn
+      rcases Int.mul_eq_zero.mp he.symm with h | h
+      · rcases Int.mul_eq_zero.mp h with h | h
+        · exact h
+        · exact absurd h hb0
+      · omega
+    simp [hc0, this, Dec.ZERO]
+  · simp only [hc0, decide_false, Bool.false_eq_true, if_false]
+    have hbody := div_rounded_body_full hw prof tm c rn b qn 0 hr ⟨Int.le_of_lt hq.1, hq.2.1⟩ hb0 hrn hq.2.2 (by omega)
+      (fun h => hc ⟨h.1, h.2.1, by omega⟩)
+    have hd : b * (10 : Int) ^ rn ≠ 0 := Int.mul_ne_zero hb0 (Int.ne_of_gt (pow10_pos _))
+    have e : c * (10 : Int) ^ (0 + qn) = k * (b * (10 : Int) ^ rn) := by
+      rw [Nat.zero_add, he, Int.mul_assoc]
+    unfold specDivCore at hbody
+    rw [e, specRoundQ_exact_mul tm _ _ hd,
+      valFit_of_fits 0 (Int.ne_of_gt hk.1) (by rw [fitsI128_iff]; omega)] at hbody
+    exact ok_of_allowed_val hbody
+
+/-- `quantize` is idempotent, value AND representation: a result of `x.quantize(q)` is returned unchanged by `.quantize(q)`
+    (every mode and profile; the result may have the coefficient `i128::MIN`, see the example — the law holds there too) -/
+theorem quantize_idempotent (hwd : WideDiv) (prof : Profile) (tm : Mode) (x q r : Dec) (hx : Dom x) (hq : Dom q)
+    (h : quantize prof tm x q = .ok r) : quantize prof tm r q = .ok r := by
+  obtain ⟨r1, h1, h2⟩ := quantize_steps prof tm x q r h
+  obtain ⟨hb0, e1, hkf⟩ := quantize_quot hwd prof tm x q r1 hx hq h1
+  subst e1
+  have hmult := quantize_multiple hwd prof tm x q r hx hq h
+  have hq18 := hq.2.2
+  have hcases := C02.mul_exact_cases prof tm ⟨quantQuot tm x q, 0⟩ q r (by simp) hq18 (by simp; omega) h2
+  simp only at hcases
+  have hkr := (fitsI128_iff _).mp hkf
+  -- the facts `divRounded_exact` needs, case by case
+  have key : (I128_MIN ≤ r.coeff ∧ r.coeff ≤ I128_MAX) ∧ r.nfrac ≤ 18 ∧ quantQuot tm x q ≠ I128_MIN ∧
+      ¬ (r.coeff = I128_MIN ∧ q.coeff = -1 ∧ q.nfrac < r.nfrac) := by
+    rcases hcases with ⟨rfl, h0⟩ | ⟨rfl, hone⟩ | ⟨rfl, hk1⟩ | ⟨rfl, hf⟩
+    · have hk0 : quantQuot tm x q = 0 := h0.resolve_right hb0
+      refine ⟨by decide, by decide, ?_, fun hh => absurd hh.1 (by decide)⟩
+      rw [hk0]; decide
+    · have hne : quantQuot tm x q ≠ I128_MIN := by
+        unfold quantQuot; rw [hone]
+        exact quot_ne_min tm x.coeff x.nfrac q.nfrac q.nfrac hx.1
+      refine ⟨hkr, by simp, hne, ?_⟩
+      intro hh
+      have := pow10_pos q.nfrac
+      omega
+    · refine ⟨⟨Int.le_of_lt hq.1, hq.2.1⟩, hq18, by rw [hk1]; decide, ?_⟩
+      intro hh; have := hq.1; omega
+    · have hfr := (fitsI128_iff _).mp hf
+      refine ⟨hfr, by simp; omega, ?_, by simp⟩
+      intro hmin
+      -- `i128::MIN · b` fits only for `b = 1` (`b ≠ 0`)
+      have hb1 : q.coeff = 1 := by
+        rw [hmin] at hfr
+        unfold I128_MIN I128_MAX at hfr
+        omega
+      have := quot_ne_min tm x.coeff x.nfrac q.nfrac 0 hx.1
+      unfold quantQuot at hmin
+      rw [hb1] at hmin
+      rw [Int.pow_zero] at this
+      exact this hmin
+  obtain ⟨hr, hrn, hkne, hc⟩ := key
+  have h3 := divRounded_exact hwd prof tm r q (quantQuot tm x q) hr hrn hq hb0 ⟨by omega, hkr.2⟩ hmult hc
+  unfold quantize
+  rw [h3]
+  exact h2
+
+/-- the same as an equality of outcomes: quantizing twice is quantizing once -/
+theorem quantize_quantize (hwd : WideDiv) (prof : Profile) (tm : Mode) (x q : Dec) (hx : Dom x) (hq : Dom q) :
+    (quantize prof tm x q >>= fun r => quantize prof tm r q) = quantize prof tm x q := by
+  cases h : quantize prof tm x q with
+  | panic k => rfl
+  | ok r => exact quantize_idempotent hwd prof tm x q r hx hq h
+
+example : quantize Profile.dev .heven ⟨-1234, 2⟩ ⟨25, 2⟩ = .ok ⟨-1225, 2⟩ ∧ quantize Profile.dev .heven ⟨-1225, 2⟩ ⟨25, 2⟩ = .ok ⟨-1225, 2⟩ ∧
+    quantQuot .heven ⟨-1234, 2⟩ ⟨25, 2⟩ = -49 ∧ (-1225 : Int) * 10 ^ 2 = -49 * 25 * 10 ^ 2 ∧
+    quantize Profile.release .up ⟨1234, 3⟩ ⟨100, 2⟩ = .ok ⟨2, 0⟩ ∧ quantize Profile.release .up ⟨2, 0⟩ ⟨100, 2⟩ = .ok ⟨2, 0⟩ ∧
+    quantize Profile.dev .floor ⟨15, 1⟩ ⟨-7, 1⟩ = .ok ⟨21, 1⟩ ∧ quantize Profile.dev .floor ⟨21, 1⟩ ⟨-7, 1⟩ = .ok ⟨21, 1⟩ := by decide
+-- a result outside the Decimal domain: the coefficient `i128::MIN` — idempotence still holds
+example : quantize Profile.dev .floor ⟨I128_MIN + 1, 0⟩ ⟨2, 0⟩ = .ok ⟨I128_MIN, 0⟩ ∧
+    quantize Profile.dev .floor ⟨I128_MIN, 0⟩ ⟨2, 0⟩ = .ok ⟨I128_MIN, 0⟩ := by decide
+
 end Fpdec.Props.C04
